@@ -26,7 +26,8 @@ Definition gAction (v : value) : action :=
   | 9 => ANames (gS (a 1%nat)) (gB (a 2%nat)) (gB (a 3%nat))
   | 10 => AWho (gS (a 1%nat))
   | 11 => AReset
-  | _ => AIsupport (gN (a 1%nat))
+  | 12 => AIsupport (gN (a 1%nat))
+  | _ => ALate (gS (a 1%nat))
   end.
 
 (* ---- encoding ---- *)
